@@ -225,8 +225,10 @@ class CEval:
         if not nxt:
             # record connects: dst.<field> follows src.<field> (forward fields only; `ready` / read-data style fields flow the other way and are not modelled)
             extra = []
+            import re as _re
+            norm = lambda x_: _re.sub(r"\.phases\[(\d+)\]", r".p\1", x_)      # interface.phases[i] and interface.p<i> are the same record
             for c in self.connects:
-                dk = key(c.target)
+                dk = norm(key(c.target))
                 if k.startswith(dk + ".") and k[len(dk) + 1:].split(".")[-1] not in ("ready", "rddata", "rddata_valid", "ack", "dat_r"):
                     fld = k[len(dk) + 1:]
                     om, kp = (c.stmt.omit or set()), c.stmt.keep
@@ -236,7 +238,7 @@ class CEval:
                     m = _c.copy(c)
                     m.kind = "assign"
                     m.target = t
-                    m.value = Sym(key(c.value) + "." + fld)
+                    m.value = Sym(norm(key(c.value)) + "." + fld)
                     extra.append(m)
             if extra:
                 leaves = sorted(list(leaves or []) + extra, key=lambda l_: l_.order)
